@@ -46,7 +46,7 @@ variable {c : Cfg} {P : Prog} {ctx : Ctx}
 
 theorem sim_loop {α : Type} {m : Meta} {name : String} {a b : Node} {ca PRO BODY EPI : List LInstr} {ci cs car c0 : Nat}
     (l : Loc) (fb : Val → Nat → α → SM (α ⊕ Val)) (fin : Int → α → SM Val) (acc0 : α)
-    (S : α → List Val) (Extra : Scope → α → Prop)
+    (S : α → List Val) (Extra : Scope → Nat → α → Prop)
     (heval : eval (specOf c) ctx (.builtin m name [a, b]) = (do
       let coll ← eval (specOf c) ctx a
       let n ← SM.lift (lengthV coll)
@@ -54,18 +54,18 @@ theorem sim_loop {α : Type} {m : Meta} {name : String} {a b : Node} {ca PRO BOD
       epiOf (fin n) r))
     (ha : Sim c P ctx a ca) (hsmall : SmallColl c a) (hK : LoopK P.consts ci cs car c0)
     (hS0 : S acc0 = [])
-    (hEx : ∀ sc acc k v, (k = "i" ∨ k = "size" ∨ k = "array") → Extra sc acc → Extra (scopeSet k v sc) acc)
+    (hEx : ∀ sc j acc k v, (k = "i" ∨ k = "size" ∨ k = "array") → Extra sc j acc → Extra (scopeSet k v sc) j acc)
     (Hpro : ∀ (k : Nat) (st : List Val) (scs : List Scope) (σ : SState) (coll : Val), CodeAt P k PRO →
-      ∃ sc0, Extra sc0 acc0 ∧
+      ∃ sc0, Extra sc0 0 acc0 ∧
         Reach c P (vm k (coll :: st) scs σ c.budget) (vm (k + lsize PRO) (coll :: st) (sc0 :: scs) σ c.budget))
     (Hbody : ∀ (coll : Val) (N k0 : Nat) (st : List Val) (scs : List Scope),
       CodeAt P k0 (loopCode l ci cs car c0 BODY ++ EPI) →
       ∀ (i : Nat) (acc : α) (σ : SState) (res : R (α ⊕ Val)) (σ1 : SState) (sc : Scope), i < N →
-        Base sc coll N i → Extra sc acc → fb coll i acc σ = (res, σ1) →
+        Base sc coll N i → Extra sc i acc → fb coll i acc σ = (res, σ1) →
         BodyPost c P S Extra coll N i (k0 + 24 + lsize BODY) (k0 + 32 + lsize BODY) st scs
           (vm (k0 + 24) (S acc ++ st) (sc :: scs) σ c.budget) res σ1)
     (Hepi : ∀ (coll : Val) (N k : Nat) (st : List Val) (scs : List Scope) (σ : SState) (sc' : Scope) (accF : α)
-      (r : R Val) (σ' : SState), CodeAt P k EPI → Base sc' coll N N → Extra sc' accF → fin N accF σ = (r, σ') →
+      (r : R Val) (σ' : SState), CodeAt P k EPI → Base sc' coll N N → Extra sc' N accF → fin N accF σ = (r, σ') →
       Runs c P (vm k (S accF ++ st) (sc' :: scs) σ c.budget) (outcome r (k + lsize EPI) st scs σ' c.budget))
     (Hexit : ∀ (k : Nat) (st : List Val) (scs : List Scope) (σ : SState) (sc' : Scope) (v : Val), CodeAt P k EPI →
       (∃ coll i acc σ0, fb coll i acc σ0 = (.ok (.inr v), σ)) →
@@ -136,10 +136,10 @@ theorem sim_loop {α : Type} {m : Meta} {name : String} {a b : Node} {ca PRO BOD
         ⟨by rw [lookup_set_other (by decide), lookup_set_same],
          by rw [lookup_set_other (by decide), lookup_set_other (by decide), lookup_set_same],
          lookup_set_same _ _ _⟩
-      have hextra := hEx _ _ "i" (.int .int ((0 : Nat) : Int)) (.inl rfl)
-        (hEx _ _ "array" coll (.inr (.inr rfl)) (hEx _ _ "size" (.int .int N) (.inr (.inl rfl)) hex0))
+      have hextra := hEx _ _ _ "i" (.int .int ((0 : Nat) : Int)) (.inl rfl)
+        (hEx _ _ _ "array" coll (.inr (.inr rfl)) (hEx _ _ _ "size" (.int .int N) (.inr (.inl rfl)) hex0))
       have hiter := fun res1 σ2 (hlv : loopIdx (fb coll) N 0 acc0 σ1 = (res1, σ2)) =>
-        loop_iter (fb coll) S Extra (fun sc acc v h => hEx sc acc "i" v (.inl rfl) h) coll N hnS
+        loop_iter (fb coll) S Extra (fun sc j acc v h => hEx sc j acc "i" v (.inl rfl) h) coll N hnS
           (k0 + 32 + lsize BODY) hhead hK (Hbody coll N k0 st scs hle) N 0 acc0 _ σ1 res1 σ2 (by omega) hbase hextra hlv
       rcases SM.bind_cases hrest with ⟨e, hle', rfl⟩ | ⟨r1, σ2, hlv, hrest2⟩
       · exact hiter _ _ hle'
